@@ -642,6 +642,15 @@ func (s *syncer) inferBisyncNamespaceMode(cli client.Redis, checkpointName strin
 	if best != nil {
 		return checkpoint.BisyncModeSync, true, nil
 	}
+
+	// A frontier-mode namespace that has not written its first snapshot yet only holds commit journal records.
+	records, err := checkpoint.LoadBisyncCommitRecords(cli, checkpointName, recoverySlots, ids, 1)
+	if err != nil {
+		return "", false, err
+	}
+	if len(records) > 0 {
+		return checkpoint.BisyncModeParallel, true, nil
+	}
 	return "", false, nil
 }
 
